@@ -41,6 +41,30 @@ func mvnExcluded(excl map[string]bool, name string) bool {
 	return excl[g+":*"] || excl["*:"+a]
 }
 
+// c07Reuse resolves every root on one resolver, forwards and backwards, and compares with fresh resolutions.
+func c07Reuse(u univ.Universe, roots [][2]string) (fails [][2]string) {
+	fresh := map[[2]string]string{}
+	for _, r := range roots {
+		g, err := mavenres.NewResolver(u.Client(nil)).Resolve(ctxBG, u.VK(r[0], r[1]))
+		fresh[r] = graphDump(g, err)
+	}
+	for _, rev := range []bool{false, true} {
+		res := mavenres.NewResolver(u.Client(nil))
+		for k := range roots {
+			r := roots[k]
+			if rev {
+				r = roots[len(roots)-1-k]
+			}
+			g, err := res.Resolve(ctxBG, u.VK(r[0], r[1]))
+			if d := graphDump(g, err); d != fresh[r] {
+				fails = append(fails, [2]string{r[0] + "@" + r[1], fmt.Sprintf("reuse: %s@%s resolved on a resolver that has resolved other roots of the universe gives %s, a fresh resolver gives %s", r[0], r[1], d, fresh[r])})
+				return
+			}
+		}
+	}
+	return nil
+}
+
 type c07Stats struct{ retries, ranges, exclusions, managed, errors, multiNode, unfollowed, nearestJudged int64 }
 
 // c07Check resolves root in u with the Maven resolver and checks the mediation invariants.
@@ -350,6 +374,14 @@ func C07(tier string) {
 						run.Fail(core.Join("maven", clause, root[0]+"@"+root[1], u.Encode()), f)
 					}
 				}
+				// the same answers from one resolver object that has already resolved the other roots (templates only:
+				// the histories of the empty base belong to C05)
+				if sp.Base != "empty" && fm.keep == nil && len(hot) > 1 {
+					for _, f := range c07Reuse(u, hot) {
+						run.Fail(core.Join("maven", "reuse", f[0], u.Encode()), f[1])
+					}
+					atomic.AddInt64(&r0, int64(2*len(hot)))
+				}
 			})
 			batch = batch[:0]
 		}
@@ -397,10 +429,25 @@ func C07(tier string) {
 	run.Finish()
 }
 
+func c07ReuseReplay(p []string) (bool, string) {
+	u, err := univ.Decode(p[3])
+	if err != nil {
+		return true, "bad universe"
+	}
+	_, hot := c05Roots(u)
+	for _, f := range c07Reuse(u, hot) {
+		return false, f[1]
+	}
+	return true, "reuse agrees with fresh resolutions"
+}
+
 func c07Replay(w string) (bool, string) {
 	p := core.Split(w)
 	if p[0] != "maven" {
 		return true, "unknown"
+	}
+	if p[1] == "reuse" {
+		return c07ReuseReplay(p)
 	}
 	u, err := univ.Decode(p[3])
 	if err != nil {
